@@ -58,7 +58,64 @@ func boundaryCases() []*Case {
 			}
 		}
 	}
+	out = append(out, floatBoundaryCases()...)
 	return out
+}
+
+// floatBoundaryCases enumerates untyped constants next to rounding midpoints
+// of float32 and float64 (a midpoint plus or minus 2^-60 resp. 2^-100 of its
+// magnitude: rounding the exact value once and rounding it through a wider
+// or narrower format give different results), and next to the largest finite
+// values, in assignment, conversion, argument and constant declaration
+// positions, for the float and complex types.
+func floatBoundaryCases() []*Case {
+	var out []*Case
+	mk := func(decls []string, o ...Obs) {
+		out = append(out, &Case{Origin: "boundary", Decls: decls, Obs: o})
+	}
+	type fb struct {
+		T    string
+		expr string
+	}
+	var list []fb
+	for _, base := range []string{"0x1p0", "0x1.8p1", "0x1.fffffep3", "0x1p24", "0x1p-100", "0x1.2p100"} {
+		// float32: the midpoint above a value with a 24-bit mantissa is +2^-24 relative
+		for _, d := range []string{"+", "-"} {
+			list = append(list, fb{"float32", fmt.Sprintf("%s + %s * 0x1p-24 %s %s * 0x1p-60", base, pow2of(base), d, pow2of(base))})
+		}
+	}
+	for _, base := range []string{"0x1p0", "0x1.8p1", "0x1.fffffffffffffp3", "0x1p53", "0x1p-500", "0x1.2p900"} {
+		for _, d := range []string{"+", "-"} {
+			list = append(list, fb{"float64", fmt.Sprintf("%s + %s * 0x1p-53 %s %s * 0x1p-100", base, pow2of(base), d, pow2of(base))})
+		}
+	}
+	list = append(list,
+		fb{"float32", "0x1p128 - 0x1p103 - 0x1p40"}, // just below the midpoint above MaxFloat32
+		fb{"float32", "0x1p128 - 0x1p103"},          // the midpoint: overflows
+		fb{"float32", "0x1p-149 / 2 + 0x1p-200"},    // just above half the smallest denormal
+		fb{"float32", "0x1p-149 / 2"},               // half the smallest denormal: rounds to 0
+		fb{"float64", "0x1p1024 - 0x1p970 - 0x1p900"},
+		fb{"float64", "0x1p1024 - 0x1p970"},
+		fb{"float64", "0x1p-1074 / 2 + 0x1p-1200"},
+		fb{"float64", "0x1p-1074 / 2"},
+	)
+	for _, c := range list {
+		T, s := c.T, c.expr
+		mk(nil, Obs{Form: "typed", T: T, Expr: s})
+		mk(nil, Obs{Form: "var", Expr: fmt.Sprintf("%s(%s)", T, s)})
+		mk(nil, Obs{Form: "arg", T: T, Expr: s})
+		mk([]string{fmt.Sprintf("const c1 %s = %s", T, s)}, Obs{Form: "var", Expr: "c1"})
+		mk([]string{fmt.Sprintf("const c1 = %s", s)}, Obs{Form: "var", Expr: fmt.Sprintf("%s(c1)", T)})
+		CT := map[string]string{"float32": "complex64", "float64": "complex128"}[T]
+		mk(nil, Obs{Form: "typed", T: CT, Expr: s})
+		mk(nil, Obs{Form: "var", Expr: fmt.Sprintf("%s(%s) == %s(%s)", T, s, T, strings.SplitN(s, " ", 2)[0])})
+	}
+	return out
+}
+
+// pow2of gives the power of two of the exponent of a hexadecimal float literal.
+func pow2of(lit string) string {
+	return "0x1" + lit[strings.IndexByte(lit, 'p'):]
 }
 
 // shiftLit spells the shift counts around the width of the type: for the
